@@ -48,11 +48,34 @@ type eTell[A p2p.Addr] struct {
 func (e eTell[A]) Tell(ctx context.Context, dst Any, v p2p.IOVec) error {
 	return e.s.Tell(ctx, dst.A.(A), v)
 }
+// Receive hands the layer above a private scratch copy of the payload and overwrites it as soon as the
+// callback returns (the most hostile legal behaviour of an inner swarm: p2p.Receiver allows the message to
+// be used only until fn returns), so that an alias kept by a layer shows up as a corrupted delivery.
 func (e eTell[A]) Receive(ctx context.Context, fn func(p2p.Message[Any])) error {
 	return e.s.Receive(ctx, func(m p2p.Message[A]) {
-		fn(p2p.Message[Any]{Src: Any{m.Src}, Dst: Any{m.Dst}, Payload: m.Payload})
+		scratch := append([]byte{}, m.Payload...)
+		fn(p2p.Message[Any]{Src: Any{m.Src}, Dst: Any{m.Dst}, Payload: scratch})
+		netsim.Poison(scratch, lastPacket.swap(m.Payload))
 	})
 }
+
+// lastPacket remembers a recent packet of any stack as poison source (a valid-looking foreign fragment)
+type poisonSrc struct {
+	mu sync.Mutex
+	b  []byte
+}
+
+func (p *poisonSrc) swap(cur []byte) []byte {
+	p.mu.Lock()
+	defer p.mu.Unlock()
+	prev := p.b
+	if len(cur) <= 4096 {
+		p.b = append([]byte{}, cur...)
+	}
+	return prev
+}
+
+var lastPacket = &poisonSrc{}
 func (e eTell[A]) LocalAddrs() []Any {
 	var out []Any
 	for _, a := range e.s.LocalAddrs() {
@@ -82,7 +105,10 @@ func (e eAsk[A]) Ask(ctx context.Context, resp []byte, dst Any, v p2p.IOVec) (in
 }
 func (e eAsk[A]) ServeAsk(ctx context.Context, fn func(context.Context, []byte, p2p.Message[Any]) int) error {
 	return e.a.ServeAsk(ctx, func(ctx context.Context, resp []byte, m p2p.Message[A]) int {
-		return fn(ctx, resp, p2p.Message[Any]{Src: Any{m.Src}, Dst: Any{m.Dst}, Payload: m.Payload})
+		scratch := append([]byte{}, m.Payload...)
+		n := fn(ctx, resp, p2p.Message[Any]{Src: Any{m.Src}, Dst: Any{m.Dst}, Payload: scratch})
+		netsim.Poison(scratch, lastPacket.swap(m.Payload))
+		return n
 	})
 }
 
